@@ -997,6 +997,11 @@ impl<Writer: Write> Muxer<Writer> {
 
     /// Helper to detect if a video frame is a keyframe.
     fn is_keyframe(&self, data: &[u8]) -> bool {
+        // Empty frames are rejected by write_video with EmptyVideoFrame.
+        if data.is_empty() {
+            return false;
+        }
+
         // INV-100: Video frame data must not be empty
         assert_invariant!(
             !data.is_empty(),
@@ -1007,14 +1012,17 @@ impl<Writer: Write> Muxer<Writer> {
         match self.video_track.codec {
             VideoCodec::H264 => {
                 // Check for IDR NAL (type 5)
-                let has_idr = AnnexBNalIter::new(data).any(|nal| (nal[0] & 0x1f) == 5);
+                let has_idr = AnnexBNalIter::new(data)
+                    .any(|nal| nal.first().is_some_and(|b| (b & 0x1f) == 5));
                 has_idr
             }
             VideoCodec::H265 => {
                 // Check for IDR NAL (type 19-21)
                 let has_idr = AnnexBNalIter::new(data).any(|nal| {
-                    let nal_type = (nal[0] >> 1) & 0x3f;
-                    (19..=21).contains(&nal_type)
+                    nal.first().is_some_and(|b| {
+                        let nal_type = (b >> 1) & 0x3f;
+                        (19..=21).contains(&nal_type)
+                    })
                 });
                 has_idr
             }
@@ -1034,16 +1042,8 @@ impl<Writer: Write> Muxer<Writer> {
             }
             VideoCodec::Vp9 => {
                 // Use VP9 keyframe detection
-                let is_key = is_vp9_keyframe(data).unwrap_or(false);
-
-                // INV-104: VP9 keyframe detection must handle invalid frames gracefully
-                assert_invariant!(
-                    is_key || data.len() >= 3,
-                    "VP9 keyframe detection requires minimum frame size",
-                    "api::is_keyframe::vp9"
-                );
-
-                is_key
+                // Frames too short or malformed for the VP9 header are not keyframes.
+                is_vp9_keyframe(data).unwrap_or(false)
             }
         }
     }
